@@ -1764,6 +1764,13 @@ class Pool:
         if timeout_handler is not None:
             timeout_handler.terminate()
 
+        # The supervisor may be in the middle of a pass that starts
+        # replacement workers: wait for it (it leaves within one supervision
+        # period), or a worker started after the loop below is never
+        # signalled and terminate() waits for it for ever.
+        debug('joining worker handler')
+        stop_if_not_current(worker_handler, timeout=5.0)
+
         # Terminate workers which haven't already finished
         if pool and hasattr(pool[0], 'terminate'):
             debug('terminating workers')
